@@ -19,8 +19,8 @@ CHECKS = {
    note=E1_NOTE + " Size attributed to a moved target = smallest report among in-sync holders (weakest sound reading)."),
  "C05": dict(engine="E1 stub-cycle", level="exploration", ref="DESIGN.md §5 C05",
    technique="runtime monitoring: hand-over predicate (README's 3 scrapes) over recorded posts and scripted scrape counts",
-   text="Directed sweep of (source count, destination count) in {0,1,2,3,4,10}^2 x destination health x load ordering for a pending move, moves begun by every relief threshold / process relief / scale-down, plus random cases rich in in-transfer copies. Oracle: a move marks the source in_transfer and sends a normal copy to an in-sync destination in the same cycle; an in-transfer copy disappears from its source only when source and a normal destination copy both report >= 3 scrapes (constant taken from README, not from the code).",
-   note=E1_NOTE + " Closed-loop (real sidecar counters) part of C05 is covered by the C03/C06 engine when built."),
+   text="Directed sweep of (source count, destination count) in {0,1,2,3,4,10}^2 x destination health x load ordering for a pending move, moves begun by every relief threshold / process relief / scale-down, plus random cases rich in in-transfer copies, plus closed-loop runs on real sidecars in which every completed move is judged with the harness' own count of real scrapes per (shard, target) at the target farm (a third of them with a sidecar restart / lost update, a third with one pod that cannot build the job's HTTP client). Oracle: a move marks the source in_transfer and sends a normal copy to an in-sync destination in the same cycle; an in-transfer copy disappears from its source only when source and a normal destination copy both report >= 3 scrapes (constant taken from README, not from the code).",
+   note=E1_NOTE + " The closed-loop cases use the E2 engine (real sidecars, simulated Prometheus)."),
  "C07": dict(engine="E1 stub-cycle", level="exploration", ref="DESIGN.md §5 C07",
    technique="runtime monitoring: every ChangeScale argument of a cycle judged against bounds / last-needed-shard / no-shrink rules; exhaustive enumeration of shard-kind tuples",
    text="All 1554 tuples of shard kinds {loaded, idle-fresh, idle-expired, unready, out-of-sync, unreachable} over 1-4 positions x 4 new-target situations x 5 (min,max) x 2 idle-time settings are executed (exhaustive over that grid), then random 1-5 shard cases. Every scale request (early min-shard request included) must lie in [min,max], not below the last shard that is out of sync / holds or was given a target / is not idle long enough, and not below the current count when idle time is 0 or a placeable target is still unassigned.",
@@ -47,7 +47,7 @@ CHECKS.update({
    note=E3_NOTE),
  "C12": dict(engine="E3 sidecar", level="exploration", ref="DESIGN.md §5 C12",
    technique="runtime monitoring: byte-equality oracle at the Prometheus side of the real proxy over payload shapes x chunkings x encodings x short writes; race detector on the forwarding path",
-   text="Every payload shape (empty ... 8 MiB, parser-rejected and binary lines, a 256 KiB-1 line, a newline on the 64 KiB block boundary) x gzip/identity x every 2-way split of the wire bytes (small bodies) or random read sizes (large) x Prometheus side as instrumented writer with short writes or as a real HTTP hop x assigned/unassigned; the bytes Prometheus receives must equal the target's decompressed body, with its Content-Type and status 200. Runs from the -race binary.",
+   text="Every payload shape (empty ... 8 MiB, parser-rejected and binary lines, a 256 KiB-1 line, a newline on the 64 KiB block boundary) x gzip/identity x every 2-way split of the wire bytes (small bodies) or random read sizes (large) x Prometheus side as instrumented writer with short writes or as a real HTTP hop x assigned/unassigned, plus concurrent scrapes of 8 targets over a real HTTP hop and rendezvous pairs of gzip scrapes held between request and streaming; the bytes Prometheus receives must equal the target's decompressed body, with its Content-Type and status 200. Runs from the -race binary.",
    note=E3_NOTE),
  "C13": dict(engine="E3 sidecar", level="fault_enumeration", ref="DESIGN.md §5 C13",
    technique="fault injection at every stage and every body offset behind the real proxy; outcome monitor on the Prometheus side (status / aborted response) and on /targets/status/",
@@ -55,7 +55,7 @@ CHECKS.update({
    note=E3_NOTE + " A break after the whole content was delivered is also required to fail on the Prometheus side (Prometheus itself would fail such a scrape)."),
  "C14": dict(engine="E3 sidecar", level="exploration", ref="DESIGN.md §5 C14",
    technique="runtime monitoring against an arithmetic reference: payloads with per-sample relabel outcome known by construction; race detector on the statistics lock",
-   text="Random scrape/assignment sequences with generated payloads (duplicates, label values needing escapes, 0-6000 samples) under six metric-relabel programs whose keep/drop outcome per sample is evaluated by plain string predicates in the harness; after every operation per-scrape totals, per-metric counts and their sums, the sliding integer mean of the last <=3 successful scrapes, total-series, /runtimeinfo/ sums and the head-series floor, and /samples/ aggregation are compared with the reference. Runs from the -race binary.",
+   text="Random scrape / assignment / rule-reload sequences over two jobs with generated payloads (duplicates, label values needing escapes, 0-6000 samples) under six metric-relabel programs whose keep/drop outcome per sample is evaluated by plain string predicates in the harness; after every operation per-scrape totals, per-metric counts and their sums, the sliding integer mean of the last <=3 successful scrapes, total-series, /runtimeinfo/ sums and the head-series floor, and /samples/ aggregation are compared with the reference. Runs from the -race binary.",
    note=E3_NOTE),
 })
 
@@ -66,19 +66,19 @@ E4_NOTE = ("Trusted: the configuration / target-group generators (documented lim
 CHECKS.update({
  "C02": dict(engine="E4 config", level="exploration", ref="DESIGN.md §5 C02",
    technique="differential runtime monitoring: the real discovery -> sidecar API -> generated file -> Prometheus loader -> real proxy pipeline vs. the vendored Prometheus on the original config; observation point = request leaving JobInfo.Cli",
-   text="For generated configurations and target groups the set of (final target labels, scheme://host/path?sorted-query really requested by the proxy) obtained through the whole sharded pipeline - real TargetsDiscovery, JSON assignment to 1-3 real sidecars, generated file re-loaded with config.Load, scrape.TargetsFromGroup on its static entries, request through the real Proxy.ServeHTTP - must equal what scrape.TargetsFromGroup yields on the original configuration. A differential oracle with the production Prometheus code as reference is the strongest oracle available for 'equivalent to one plain Prometheus'.",
+   text="For generated configurations and target groups the set of (final target labels, scheme://host/path?sorted-query really requested by the proxy) obtained through the whole sharded pipeline - real TargetsDiscovery, JSON assignment to 1-3 real sidecars, generated file re-loaded with config.Load, scrape.TargetsFromGroup on its static entries, request through the real Proxy.ServeHTTP - must equal what scrape.TargetsFromGroup yields on the original configuration; the comparison is repeated after a reload with edited relabel programs / path / scheme on the same discovery and sidecar objects. A differential oracle with the production Prometheus code as reference is the strongest oracle available for 'equivalent to one plain Prometheus'.",
    note=E4_NOTE),
  "C11": dict(engine="E4 config", level="exploration", ref="DESIGN.md §5 C11",
    technique="differential runtime monitoring: generated file re-loaded with the Prometheus loader and compared field-wise with the loaded original, reflective walk over all Secret values, byte scan for job secrets",
-   text="Generated configurations with every auth kind, SD kind, alerting and remote read/write sections with unique secrets are pushed through a real sidecar's API together with assignments (incl. empty jobs and targets of unknown jobs); the generated file must load, have the same jobs in order (+ the self-monitoring job iff enabled), static entries one-to-one with assigned hashes, http scheme, the sidecar's proxy URL, no basic-auth/TLS, no job secret in its bytes, unchanged ingestion settings, and unchanged global/rule/alerting/remote sections including every secret value.",
+   text="Generated configurations with every auth kind, SD kind, alerting and remote read/write sections with unique secrets are pushed through a real sidecar's API together with assignments (incl. empty jobs and targets of unknown jobs), then a reload changing only external labels, a second configuration and a changed assignment, the file being re-checked after each; the generated file must load, have the same jobs in order (+ the self-monitoring job iff enabled), static entries one-to-one with assigned hashes, http scheme, the sidecar's proxy URL, no basic-auth/TLS, no job secret in its bytes, unchanged ingestion settings, and unchanged global/rule/alerting/remote sections including every secret value.",
    note=E4_NOTE),
  "C15": dict(engine="E4 config", level="exploration", ref="DESIGN.md §5 C15",
    technique="runtime monitoring: bijection oracle between hashes and (labels, URL) over repeated rounds, permutations, label placement, fresh processes and single-component edits",
-   text="The real TargetsDiscovery is run on generated configurations and groups; across repeated rounds, three permutation modes, 1-3 fresh processes and up to 40 single-component edits per case the relation hash <-> (shipped labels, URL) must stay a bijection, the by-hash table must have one key per distinct target, and equal inputs must give equal sets.",
+   text="The real TargetsDiscovery is run on generated configurations and groups; across repeated rounds, three permutation modes, 1-3 fresh processes and up to 40 single-component edits per case the relation hash <-> (shipped labels, URL) must stay a bijection (reserved non-URL labels count as labels), the by-hash table must have one key per distinct target, a job's list may repeat a hash at most once per group, and equal inputs must give equal sets.",
    note=E4_NOTE),
  "C16": dict(engine="E4 config", level="exploration", ref="DESIGN.md §5 C16",
    technique="runtime monitoring: catalogue of single-setting edits (must change the hash) and re-renderings / external-label changes (must not), cross-process and through a sidecar's /runtimeinfo/",
-   text="For each generated configuration every applicable entry of a ~150-entry catalogue of single-setting edits must change the hash computed by the real ConfigManager, seven textual re-renderings and three external-label changes must not, and the same text must hash identically in three fresh processes and inside a sidecar (as reported by /runtimeinfo/).",
+   text="For each generated configuration every applicable entry of a ~150-entry catalogue of single-setting edits must change the hash computed by the real ConfigManager, seven textual re-renderings and three external-label changes must not, the same bytes must hash identically whether loaded from a file in a nested directory (coordinator) or pushed as raw content (sidecar), in three fresh processes and inside a sidecar (as reported by /runtimeinfo/).",
    note=E4_NOTE + " Pure list re-ordering is not asserted either way."),
 })
 
@@ -86,7 +86,7 @@ CHECKS.update({
 CHECKS.update({
  "C17": dict(engine="E5 discovery/explorer", level="exploration", ref="DESIGN.md §5 C17",
    technique="runtime monitoring: (1) reference-model monitor after every step, (2) recorded concurrent histories checked for linearizability with porcupine, (3) Go race detector with attribution to reader/writer pairs of the tables",
-   text="The real TargetsDiscovery and Explore, wired and fed as in cmd/kvass/coordinator.go, are driven with sequences of full updates, partial first rounds and reloads that add/remove/keep jobs. Monitor 1 compares all four read APIs with a reference model after every step and re-checks earlier snapshots; monitor 2 records reads of 4-8 concurrent goroutines against a single writer (unique version per update) and checks each short history with porcupine against a sequential job->version map (a kept job may never be missing); monitor 3 repeats such histories under -race.",
+   text="The real TargetsDiscovery and Explore, wired and fed as in cmd/kvass/coordinator.go, are driven with sequences of full updates, partial first rounds and reloads that add/remove/keep jobs. Monitor 1 compares all four read APIs with a reference model after every step and re-checks earlier snapshots; monitor 2 records reads of 4-8 concurrent goroutines against a single writer (unique version per update) and checks each short history with porcupine against a sequential job->version map (a kept job may never be missing); monitor 3 repeats such histories under -race; monitor 4 runs WaitInit against scripted first-round arrivals (it must not return before every configured job had its first round).",
    note="Trusted: the harness' feeding of the discovery channel (what the Prometheus discovery manager would send) and porcupine v1.3.0. Updates and reloads are issued by one writer: update-reload races are outside the property. Held = held on the observed histories; porcupine timeout = inconclusive."),
  "C18": dict(engine="E6 kubernetes fake", level="exploration", ref="DESIGN.md §5 C18",
    technique="runtime monitoring on a client-go fake clientset: returned shards and the recorded API actions / objects judged; exhaustive sweep of the bounded parameter grid",
